@@ -23,14 +23,14 @@ func init() {
 		Assume:    []string{"a big step runs one thread alone between two named stopping points", "sequentially consistent atomics", "a failing secondary call has no effect on the secondary store", "a Delete that returns an error counts as not completed"},
 		Quick: []Scenario{
 			mk("sync-simple", 8, "", "", 60), mk("sync-expiry", 8, "", "", 60), mk("sync-loading", 8, "", "", 60), mk("sync-loading-ttl", 8, "", "", 60),
-			mk("sync-m2", 8, "", "", 60), mk("sync-coin", 8, "", "", 60), mk("sync-fault-S1", 4, "", "", 60), mk("sync-fault-D1", 4, "", "", 60), mk("sync-fault-G1", 4, "", "", 60),
+			mk("sync-m2", 8, "", "", 60), mk("sync-coin", 8, "", "", 60), mk("sync-fault-S1", 4, "", "", 60), mk("sync-fault-D1", 4, "", "", 60), mk("sync-expiry-fault-D", 4, "", "", 60), mk("sync-loading-expiry-fault-D", 4, "", "", 60), mk("sync-fault-G1", 4, "", "", 60),
 			mk("async-simple", 8, "", "", 60), mk("async-2workers", 8, "", "", 60), mk("async-loading", 8, "", "", 60), mk("async-full", 8, "", "", 60), mk("bf-2clients", 16, "3", "11", 60),
 			ic("I1-promote-vs-set", 4, "2", 60), ic("I1L-loading-promote-vs-set", 4, "2", 60), ic("I2-worker-vs-set", 4, "2", 60), ic("I3-worker-vs-delete-set", 4, "2", 60),
 			ic("I4-promote-vs-delete", 4, "2", 60), ic("I11-promote-vs-delete-then-get", 4, "2", 60), ic("I11L-loading-promote-vs-delete-then-get", 4, "2", 60), ic("I5-two-workers", 8, "1", 60), ic("I6-slow-secondary", 4, "2", 60), ic("I7-coin", 4, "2", 60), ic("I8-worker-vs-delete", 4, "2", 60), ic("I9-slow-read-vs-deadline", 4, "2", 60), ic("I9L-loading-slow-read-vs-deadline", 4, "2", 60), ic("I10-promote-vs-set-then-get", 6, "2", 60), ic("I10L-loading-promote-vs-set-then-get", 6, "2", 60), ic("I4L-loading-promote-vs-delete", 6, "2", 60),
 		},
 		Thorough: []Scenario{
 			mk("sync-simple", 16, "8", "8", 60), mk("sync-expiry", 16, "7", "8", 60), mk("sync-loading", 16, "7", "8", 60), mk("sync-loading-ttl", 16, "6", "8", 60),
-			mk("sync-m2", 16, "8", "8", 60), mk("sync-coin", 16, "6", "6", 60), mk("sync-fault-S1", 16, "7", "7", 60), mk("sync-fault-D1", 16, "7", "7", 60), mk("sync-fault-G1", 16, "7", "7", 60),
+			mk("sync-m2", 16, "8", "8", 60), mk("sync-coin", 16, "6", "6", 60), mk("sync-fault-S1", 16, "7", "7", 60), mk("sync-fault-D1", 16, "7", "7", 60), mk("sync-expiry-fault-D", 16, "7", "7", 60), mk("sync-loading-expiry-fault-D", 16, "7", "7", 60), mk("sync-fault-G1", 16, "7", "7", 60),
 			mk("async-simple", 16, "6", "13", 200), mk("async-2workers", 16, "5", "12", 60), mk("async-loading", 16, "5", "12", 60), mk("async-full", 16, "6", "13", 60), mk("bf-2clients", 16, "3", "12", 60),
 			ic("I1-promote-vs-set", 16, "3", 60), ic("I1L-loading-promote-vs-set", 16, "3", 60), ic("I2-worker-vs-set", 8, "4", 60), ic("I3-worker-vs-delete-set", 16, "3", 200),
 			ic("I4-promote-vs-delete", 16, "3", 60), ic("I11-promote-vs-delete-then-get", 16, "3", 200), ic("I11L-loading-promote-vs-delete-then-get", 16, "3", 200), ic("I5-two-workers", 16, "2", 200), ic("I6-slow-secondary", 16, "3", 200), ic("I7-coin", 16, "3", 60), ic("I8-worker-vs-delete", 16, "3", 200), ic("I9-slow-read-vs-deadline", 16, "3", 200), ic("I9L-loading-slow-read-vs-deadline", 16, "3", 200), ic("I10-promote-vs-set-then-get", 16, "3", 200), ic("I10L-loading-promote-vs-set-then-get", 16, "3", 200), ic("I4L-loading-promote-vs-delete", 16, "3", 200),
